@@ -109,7 +109,7 @@ def main():
         evals += 1
         distinct.add((ht, tuple(nodes)))
         if real.ring != spec:
-          fail('c06-compat-ring', hash_type=ht, nodes=nodes, first_difference=repr(next((x, y) for x, y in zip(real.ring, spec) if x != y)))
+          fail('c06-compat-ring', hash_type=ht, nodes=nodes, first_difference=repr(next(((x, y) for x, y in zip(real.ring, spec) if x != y), ('lengths', len(real.ring), len(spec)))))
           continue
         ow = owners(real.ring)
         evals += 65536
